@@ -145,3 +145,12 @@ RULES = [
     ("C02.c", "a broadcast completes only when all sub-sends completed", rule_c),
     ("C02.d", "per-mailbox FIFO, single consumer", rule_d),
 ]
+
+
+
+def rule_awaits(ctx):
+    from . import inventory
+    inventory.check_awaits(ctx, None)
+
+
+RULES.append(("C02.h", "await inventory: only futures whose completion rule is covered are polled on the delivery path", rule_awaits))
